@@ -189,6 +189,10 @@ func RunWorker(t *testing.T, e Engine) {
 		}
 	}
 
+	var focus *regexp.Regexp
+	if f := os.Getenv("VERIF_FOCUS"); f != "" {
+		focus = regexp.MustCompile(f) // debugging aid: only report violations whose signature matches
+	}
 	if plan.Pin {
 		runtime.GOMAXPROCS(1)
 		debug.SetGCPercent(-1)
@@ -276,6 +280,10 @@ func RunWorker(t *testing.T, e Engine) {
 		}
 		if v := res.Violation; v != nil {
 			isKnown := false
+			if focus != nil && !focus.MatchString(v.Check) {
+				sum.Known["(outside VERIF_FOCUS) "+v.Check]++
+				continue
+			}
 			for i, re := range known {
 				if re.MatchString(v.Check) {
 					sum.Known[knownSrc[i]]++
